@@ -4,11 +4,14 @@
    logarithm and fractional power a positive argument, every table lookup a key in range): Gen/*Ok.v, regenerated from
    the source together with the model.  Proved here: the leaf models are defined on the envelope, and on the
    delivered-concentration path of coarse grains the derived spatial concentration stays strictly inside (Cvt, Cvb).
-   The compositions (fixed bed, LDV loops, Cvt path in general, graded sand, curve tables) are decided on the real code
-   by the search; see the partial clauses. *)
-From Coq Require Import Reals.
-From DHV Require Import NumOps RInst LIl LSettle LC02.
-From DHV Require Constants Homogeneous HomogeneousOk Heterogeneous HeterogeneousOk Framework.
+   Proved here: EVERY model on the spatial-concentration path -- liquid, homogeneous, heterogeneous (both switch
+   settings), fixed bed, sliding bed -- and hence Cvs_Erhg, its detailed result and Cvs_regime are defined on the whole
+   envelope; on the delivered-concentration path of coarse grains the derived spatial concentration stays strictly inside
+   (Cvt, Cvb).  The LDV loops, the Cvt path of finer grains, graded sand and the curve tables are decided on the real
+   code by the search; see the partial clauses. *)
+From Coq Require Import Reals Lra.
+From DHV Require Import NumOps RInst LIl LSettle LC02 LDefined LFb.
+From DHV Require Constants Homogeneous HomogeneousOk Heterogeneous HeterogeneousOk Stratified StratifiedOk Framework FrameworkOk.
 Local Open Scope R_scope.
 
 (* the carrier-liquid gradient is defined everywhere on the liquid side of the envelope (turbulent branch, both
@@ -50,3 +53,42 @@ Theorem C02_coarse_Cvt_path : forall vls Dp d eps nu rhol rhos Cvt : R,
   Cvt < Framework.Cvs_from_Cvt RN vls Dp d eps nu rhol rhos Cvt < Constants.Cvb RN.
 Proof. exact LC02.coarse_Cvs_inside. Qed.
 Print Assumptions C02_coarse_Cvt_path.
+
+(* the whole spatial-concentration path: on the engineering envelope (liquid side liqE, grain up to Dp/4, rhol 0.99..1.03,
+   rhos 2..4, Cvs 0.02..0.45) the selected gradient, its detailed result and the regime name are defined for both settings
+   of both module switches: the liquid gradient, the fixed-bed force balance (bed half-angle inside the table, every
+   perimeter / area / hydraulic diameter positive, all three friction-factor logarithm arguments strictly inside (0, 1)),
+   the sliding bed, the heterogeneous and the homogeneous model *)
+Theorem C02_Cvs_path_defined : forall (sf sq : bool) (vls Dp d eps nu rhol rhos Cvs : R), LFb.inE vls Dp d eps nu rhol rhos Cvs ->
+  FrameworkOk.Cvs_Erhg_ok sf sq vls Dp d eps nu rhol rhos Cvs /\
+  FrameworkOk.Cvs_Erhg_dict_ok sf sq vls Dp d eps nu rhol rhos Cvs /\
+  FrameworkOk.Cvs_regime_ok sf sq vls Dp d eps nu rhol rhos Cvs.
+Proof. exact LFb.Cvs_path_ok. Qed.
+Print Assumptions C02_Cvs_path_defined.
+
+Theorem C02_fixed_bed_defined : forall vls Dp d eps nu rhol rhos Cvs : R,
+  liqE vls Dp eps nu -> 0 < d <= Dp / 4 -> 0 < rhol < rhos -> 2 / 100 <= Cvs <= 45 / 100 ->
+  StratifiedOk.fb_Erhg_ok vls Dp d eps nu rhol rhos Cvs.
+Proof. exact LFb.fb_Erhg_ok. Qed.
+Print Assumptions C02_fixed_bed_defined.
+
+(* the bed half-angle read from the table for a bed fraction Cvs/Cvb in [1/30, 3/4] lies in (0.45, 2.05) rad *)
+Theorem C02_bed_angle_range : forall Cvs : R, 2 / 100 <= Cvs <= 45 / 100 ->
+  45 / 100 < Stratified.beta RN Cvs < 205 / 100 /\ StratifiedOk.beta_ok Cvs.
+Proof. exact LFb.beta_val. Qed.
+Print Assumptions C02_bed_angle_range.
+
+Theorem C02_homogeneous_defined : forall (vls Dp d eps nu rhol rhos Cvs : R) (sf : bool),
+  liqE vls Dp eps nu -> solE Dp d rhol rhos Cvs -> HomogeneousOk.Erhg_ok vls Dp d eps nu rhol rhos Cvs sf.
+Proof. exact LDefined.ho_ok. Qed.
+Print Assumptions C02_homogeneous_defined.
+
+Theorem C02_heterogeneous_defined : forall (vls Dp d eps nu rhol rhos Cvs : R) (sf sq : bool),
+  liqE vls Dp eps nu -> solE Dp d rhol rhos Cvs -> HeterogeneousOk.Erhg_ok vls Dp d eps nu rhol rhos Cvs sf sq.
+Proof. exact LDefined.he_ok. Qed.
+Print Assumptions C02_heterogeneous_defined.
+
+(* the envelope is not empty: the repository's default slurry at 3 m/s *)
+Theorem C02_nonvacuous : LFb.inE 3 (762 / 1000) (1 / 1000) (45 / 1000000) (10508 / 10000000000) (10248103 / 10000000) (265 / 100) (175 / 1000).
+Proof. unfold LFb.inE, liqE. repeat split; lra. Qed.
+Print Assumptions C02_nonvacuous.
